@@ -474,7 +474,8 @@ def run(chk: common.Check):
               "slides with a disulfide along each axis; full runs under grid translations (incl. +9000 A) x axis-permuting rotations: heavy-atom "
               "quantities (bonds, groups, desolvation, buried, bridges) incl. hetero groups, all pKa/determinants with supplied hydrogens "
               f"(tol {TOL_EXACT}) and with built hydrogens (tol {PKA_TOL_BUILT}), incl. a guanidinium plane exactly perpendicular to an axis. "
-              "distinct = poses"),
+              "distinct = poses"
+              " Added in rounds 4-6: translations putting an atom on the origin, contact probes along an axis, pairs one grid step inside / outside and exactly at the distance limits, truncated and out-of-plane side chains, closest-pair search under list permutations with near-ties, Group.set_center vs model/Centre.v."),
         assumptions=["over R the invariance is exact; in binary64 coordinate differences round differently after a translation, hence the 1e-7 tolerance "
                      "on continuous quantities (counts, bonds, group lists are compared exactly)",
                      f"built hydrogens are rounded to 0.001 A by add_proton in each frame: tolerance {PKA_TOL_BUILT} pKa units",
